@@ -15,7 +15,9 @@ RULE = ("every flavour x instruction shape x operand field position x values jus
         "range (register index 16,17,31,63,64,255,-1; imm8 -1,-128,-256,256,257,300,511,65536,2^31; int32/address "
         "+-2^31(+-1), 2^32-1, 2^32, 2^32+5, +-2^63; app id -1, 65536, 70000, 2^32; version byte -1, 256, 300), reached "
         "by direct construction, by the text assembler, and by the SDK (rotation numerators/denominators, array "
-        "initial values and lengths, loop bounds, app ids); each with an in-range twin. Non-trivial = the case "
+        "initial values and lengths, loop bounds, app ids); each with an in-range twin."
+        ' Also numpy-typed integers in every integer field and SDK route, template operands instantiated with unrepresentable values, random magnitudes up to 2^70, several offending fields, offending operands deep inside programs of up to 30 instructions (direct and text), and fresh interpreters whose first use of every shape carried bool / numpy / float operands. '
+        "Non-trivial = the case "
         "carries an out-of-range value; distinct = distinct case description.")
 ASSUMPTIONS = ["'raises' means any exception before bytes are produced (construction, assembling or bytes())",
                "a value that encodes without error must decode to exactly the same operand (checked with the repo decoder and the reference decoder)"]
